@@ -13,10 +13,15 @@
    2. `sched`: executes all threads' observations in a given order (the recorder's stamps made consistent with the exact
       old -> new chain of dq_atomic_flags) on SrcLife.gstep.  Every observation must be produced by a model step that is
       ENABLED at that point and has the RECORDED outcome: the owner's phases are matched through their `footprint` (the
-      observations a phase's actions stand for: flag read, du_state stores with the decoded bits, the finalize CAS with its
-      old and new value, futex wake, latch exchange, handler slot exchanges with NULL / non-NULL, callout marks); phases
-      without footprint are taken silently on the way; the inputs the model does not compute (`orc`) are tried from a
-      short list per program point.  The scheduler never skips an observation and performs model steps only.
+      observations a phase's actions stand for: flag read, du_state stores with the decoded bits (and, for a set_bit /
+      clear_bit, the value loaded just before), the finalize CAS with its old and new value, futex wake, latch exchange,
+      handler slot exchanges with NULL / non-NULL, callout marks).  A phase takes effect at the ANCHOR of its footprint
+      (the CAS on dq_atomic_flags, else its first write, else its last observation).  Phases without footprint are taken
+      when the owner loads du_state (the last load of a burst, if the model agrees on the value: that is when the C code
+      decides) or, failing that, on the way to the owner's next observation; the inputs the model does not compute (`orc`)
+      are tried from a short list per program point.  The manager's deliveries are the model's two halves: the du_state
+      store (GEvent / GHangup), then the ds_pending_data write (GEvMerge).  The scheduler never skips an observation and
+      performs model steps only.
 
    3. `replay`: the list of model acts the scheduler performed is run again from the initial state with SrcLife.grun; the
       state reported (and judged with the boolean invariant inv_b) is that one, so it is reachable in SrcLife whatever the
@@ -38,6 +43,7 @@ Inductive robs :=
 | RAndF (old opnd : Z)
 | RCaswF (seen new : Z) (ok : bool)
 | RCasF (seen new : Z) (ok : bool)
+| RReadU (v : Z)               (* a load of du_state by a thread that holds the drain lock *)
 | RWu (v : Z) (old : Z)        (* old: the value the same thread loaded just before (set_bit / clear_bit), or -1 *)
 | RXp (old : Z)
 | RWp (new : Z)
@@ -82,7 +88,9 @@ Definition mabs_one (self : Z) (a : ast) (e : event) (next : option event) : rob
     (if k =? DV_XCHG then (if eb e =? 0 then RXp (ea e) else RWp (eb e))
      else if k =? DV_STORE then RWp (eb e)
      else if (k =? DV_ADD) || (k =? DV_OR) then RWp (rmw_result e) else RBad, a)
-  else if f =? FD_U then (if k =? DV_STORE then (RWu (eb e) (if eoff e =? 1 then ea e else -1), a) else (RBad, a))
+  else if f =? FD_U then
+    (if k =? DV_STORE then RWu (eb e) (if eoff e =? 1 then ea e else -1)
+     else if k =? DV_LOAD then (if a_inlock a && (a_callout a =? 0) then RReadU (ea e) else RSkip) else RBad, a)
   else if f =? FD_S then
     let old := ea e in
     let new := if (k =? DV_CAS) || (k =? DV_CASW) || (k =? DV_XCHG) then eb e else rmw_result e in
@@ -151,27 +159,29 @@ Definition src_du_is (s : src) (v : Z) : bool :=
    Returns the rest of the list, the number of entries consumed and the number of entries up to the ANCHOR of the
    footprint: the observation at which the step takes effect for the other threads = the CAS that changes dq_atomic_flags
    if the footprint has one, else its first write to one of the other words, else its last observation. *)
-Fixpoint fmatch (s0 : src) (f0 f1 : flags) (fp : list fobs) (q : list robs) (n : Z) (afin afirst : Z) (fuel : nat) : option (list robs * Z * Z) :=
+Fixpoint fmatch (cr strict : bool) (s0 : src) (f0 f1 : flags) (fp : list fobs) (q : list robs) (n : Z) (afin afirst : Z) (fuel : nat) : option (list robs * Z * Z) :=
   match fuel with O => None | S fu =>
   match fp with
   | [] => Some (q, n, if negb (afin =? 0) then afin else if negb (afirst =? 0) then afirst else n)
   | x :: fp' =>
       match q with
-      | RSkip :: q' => fmatch s0 f0 f1 fp q' (n + 1) afin afirst fu
+      | RSkip :: q' => fmatch cr strict s0 f0 f1 fp q' (n + 1) afin afirst fu
+      | RReadU _ :: q' => fmatch cr strict s0 f0 f1 fp q' (n + 1) afin afirst fu
       | h :: q' =>
           let ok (b : bool) :=
-            if b then fmatch s0 f0 f1 fp' q' (n + 1) (match x with FFin | FNe => n + 1 | _ => afin end)
+            if b then fmatch cr strict s0 f0 f1 fp' q' (n + 1) (match x with FFin | FNe => n + 1 | _ => afin end)
                        (match x with FXp | FXh _ _ | FWu _ _ _ => if afirst =? 0 then n + 1 else afirst | _ => afirst end) fu
             else None in
           match x, h with
-          | FRead, RReadF v true => ok (fl_is f0 v)
+          | FRead, RReadF v true => ok (negb cr || fl_is f0 v)
           | FWu w a nd, RWu v old =>
               ok ((let '(w', a', n') := du_bits v in Bool.eqb w w' && Bool.eqb a a' && Bool.eqb nd n') &&
-                  ((old =? -1) || negb (afirst =? 0) || src_du_is s0 old))
-          | FWp0opt, RWp v => if v =? 0 then fmatch s0 f0 f1 fp' q' (n + 1) afin afirst fu else fmatch s0 f0 f1 fp' q n afin afirst fu
-          | FWp0opt, _ => fmatch s0 f0 f1 fp' q n afin afirst fu
-          | FFin, RCaswF seen new true => ok (fl_is f0 seen && fl_is f1 new && is_commit (flags_set_and_clear_loop 0 DSF_DELETED (Z.lor DSF_NEEDS_EVENT DSF_CANCEL_WAITER) seen) new)
-          | FNe, RCaswF seen new true => ok (fl_is f0 seen && fl_is f1 new)
+                  ((old =? -1) || negb (afirst =? 0) || negb strict || src_du_is s0 old))
+          | FWp0opt, RWp v => if v =? 0 then fmatch cr strict s0 f0 f1 fp' q' (n + 1) afin afirst fu else fmatch cr strict s0 f0 f1 fp' q n afin afirst fu
+          | FWp0opt, _ => fmatch cr strict s0 f0 f1 fp' q n afin afirst fu
+          | FFin, RCaswF seen new true => ok ((negb strict || (fl_is f0 seen && fl_is f1 new)) && is_commit (flags_set_and_clear_loop 0 DSF_DELETED (Z.lor DSF_NEEDS_EVENT DSF_CANCEL_WAITER) seen) new)
+          | FFin, RCaswF _ _ false => fmatch cr strict s0 f0 f1 fp q' (n + 1) afin afirst fu      (* a failed attempt of the loop *)
+          | FNe, RCaswF seen new true => ok (negb strict || (fl_is f0 seen && fl_is f1 new))
           | FWake, RFwake => ok true
           | FXp, RXp old => ok (negb (old =? 0))
           | FXh off nn, RXh off' old => ok ((off =? off') && Bool.eqb nn (negb (old =? 0)))
@@ -179,7 +189,7 @@ Fixpoint fmatch (s0 : src) (f0 f1 : flags) (fp : list fobs) (q : list robs) (n :
           | FCe k, RCe k' => ok (k =? k')
           | _, _ => None
           end
-      | [] => match x with FWp0opt => fmatch s0 f0 f1 fp' q n afin afirst fu | _ => None end
+      | [] => match x with FWp0opt => fmatch cr strict s0 f0 f1 fp' q n afin afirst fu | _ => None end
       end
   end end.
 
@@ -233,14 +243,33 @@ Definition pop_skips (q : list robs) : list robs * Z :=
 
 Definition is_owner_t (g : gst) (t : Z) : bool := match owner g with Some o => o =? t | None => false end.
 
+(* the phases without footprint that the lock owner can take now, whatever the inputs the model does not compute *)
+Fixpoint eager (fuel : nat) (t : Z) (r : rst) : rst :=
+  match fuel with O => r | S fu =>
+  let g := r_g r in
+  if negb (is_owner_t g t) then r
+  else
+    (* only when the next phase has no footprint whatever the inputs the model does not compute *)
+    let outs := map (fun o => match perform r t (GPhase o) with
+                              | Some (r1, acts) => Some (r1, footprint (g_k g) o (o_pc g) (g_s g) (g_s (r_g r1)) acts)
+                              | None => None end)
+                    (match o_pc g with OA1 => [orc_base] | p => orcs_for (r_cfg r) p end) in
+    if forallb (fun x => match x with Some (_, []) => true | Some _ => false | None => true end) outs then
+      match filter (fun x => match x with Some _ => true | None => false end) outs with
+      | Some (r1, _) :: _ => eager fu t r1
+      | _ => r
+      end
+    else r
+  end.
+
 (* the lock owner t advances until the phase whose footprint starts at the head of its observation list has been taken;
    phases without footprint are taken on the way; a finished invoke is followed by a new one (the C code re-invokes
    without dropping the lock when the queue was made dirty meanwhile) *)
-Fixpoint adv (fuel : nat) (q : queue) (i : nat) (t : Z) (obs : list robs) (r : rst) : option (rst * list robs * Z * Z) :=
+Fixpoint adv (cr strict : bool) (fuel : nat) (q : queue) (i : nat) (t : Z) (obs : list robs) (r : rst) : option (rst * list robs * Z * Z) :=
   match fuel with O => None | S fu =>
   let g := r_g r in
   if negb (is_owner_t g t) then
-    match perform r t (GInvoke q) with Some (r1, _) => adv fu q i t obs r1 | None => None end
+    match perform r t (GInvoke q) with Some (r1, _) => adv cr strict fu q i t obs r1 | None => None end
   else
     (fix try (os : list orc) : option (rst * list robs * Z * Z) :=
        match os with
@@ -251,9 +280,10 @@ Fixpoint adv (fuel : nat) (q : queue) (i : nat) (t : Z) (obs : list robs) (r : r
            | Some (r1, acts) =>
                let fp := footprint (g_k g) o (o_pc g) (g_s g) (g_s (r_g r1)) acts in
                match fp with
-               | [] => match adv fu q i t obs r1 with Some x => Some x | None => try os' end
-               | _ => match fmatch (g_s g) (fl (g_s g)) (fl (g_s (r_g r1))) fp obs 0 0 0 (S (length obs + length fp)) with
-                      | Some (obs', n, an) => if 0 <? n then Some (r1, obs', n, an) else try os'
+               | [] => match adv cr strict fu q i t obs r1 with Some x => Some x | None => try os' end
+               | _ => match fmatch cr strict (g_s g) (fl (g_s g)) (fl (g_s (r_g r1))) fp obs 0 0 0 (S (length obs + length fp)) with
+                      | Some (obs', n, an) =>
+                          if 0 <? n then Some (r1, obs', n, an) else try os'
                       | None => try os'
                       end
                end
@@ -326,10 +356,14 @@ Definition exec0 (i : nat) (th : tst) (r : rst) : option rst :=
   (* an observation of the lock owner: the phase that produces it; the phase takes effect when the order reaches the
      anchor of its footprint, the observations before the anchor are passed without effect *)
   let owner_obs : option rst :=
-    match adv 24 q i t (t_q th) r with
+    match adv true false 24 q i t (t_q th) r with
     | None => None
-    | Some (r1, q', n, an) =>
-        if an <=? 1 then fin r1 q' (n - 1) same
+    | Some (_, _, _, an) =>
+        if an <=? 1 then
+          match adv true true 24 q i t (t_q th) r with
+          | Some (r1, q', n, _) => fin r1 q' (n - 1) same
+          | None => None
+          end
         else Some (mkR g (upd_t (r_ts r) i (fun x => set_wait x (an - 1) an)) (r_acts r) (r_cfg r))
     end in
   match t_q th with
@@ -485,6 +519,16 @@ Definition exec0 (i : nat) (th : tst) (r : rst) : option rst :=
         if cpc_code (cpc g t) =? 6 then match perform r t GFutexRet with Some (r1, _) => fin r1 rest 0 same | None => None end
         else fin r rest 0 same
     | RFwake => if is_owner_t g t then owner_obs else None
+    | RReadU v =>
+        (* the owner's phases without footprint read du_state: they are taken when the thread reads it, if the model agrees
+           on the value (else later, at the thread's next observation) *)
+        (* several loads in a row (wlh check, needs_delete, needs_rearm ...): the decision is read off the last one *)
+        let last_of_burst := match fst (pop_skips rest) with RReadU _ :: _ => false | _ => true end in
+        (* at source.c:763 a suspended source returns at once: the load of :724 then is the thread's last observation before
+           the unlock; the choice is left to the unlock *)
+        let returns_now := match o_pc g, fst (pop_skips rest) with OA1, RUnlock :: _ => true | _, _ => false end in
+        if is_owner_t g t && last_of_burst && negb returns_now && src_du_is (g_s g) v then fin (eager 24 t r) rest 0 same
+        else fin r rest 0 same
     | RWu v uold =>
         if is_owner_t g t then
           owner_obs
@@ -538,7 +582,7 @@ Definition exec := exec0.
 
 (* follow the order: one entry = one observation of that thread (entries already consumed ahead are credited) *)
 Definition at_anchor (i : nat) (th : tst) (r : rst) : option rst :=
-  match adv 24 (if t_mgr th then QMgr else QTarget) i (t_id th) (t_q th) r with
+  match adv false true 24 (if t_mgr th then QMgr else QTarget) i (t_id th) (t_q th) r with
   | Some (r1, q', n, _) =>
       if t_base th <=? n then
         Some (mkR (r_g r1) (upd_t (r_ts r1) i (fun x => set_wait (set_q x q' (n - t_base th)) 0 0)) (r_acts r1) (r_cfg r1))
@@ -569,7 +613,7 @@ Fixpoint sched (ord : list nat) (r : rst) (done : Z) : rst * Z * list nat :=
 Definition obs_code (o : robs) : Z :=
   match o with
   | RLock => 1 | RUnlock => 2 | RReadF _ m => if m then 4 else 3 | ROrF _ _ => 5 | RAndF _ _ => 6 | RCaswF _ _ _ => 7
-  | RCasF _ _ _ => 8 | RWu _ _ => 9 | RXp _ => 10 | RWp _ => 11 | RXh _ _ => 12 | RFwait _ => 13 | RFret _ => 14 | RFwake => 15
+  | RCasF _ _ _ => 8 | RReadU _ => 22 | RWu _ _ => 9 | RXp _ => 10 | RWp _ => 11 | RXh _ _ => 12 | RFwait _ => 13 | RFret _ => 14 | RFwake => 15
   | RCall _ _ => 16 | RRet _ => 17 | RCb _ => 18 | RCe _ => 19 | RSkip => 20 | RBad => 21
   end.
 
